@@ -27,8 +27,20 @@ UNARY_DEF = {
 }
 
 
+CAST_ANY = ('CharList', 'ByteList', 'Symbol', 'True', 'False')
+CAST_DEF = {'Number': {'CharList', 'Char', 'Byte'}, 'Char': {'Number', 'Byte', 'CharList'}, 'Byte': {'Number', 'Char'},
+            'List': {'SymbolList', 'Range', 'CharList', 'ByteList', 'Concatenation', 'Slice'}}
+
+
+def cast_defined(lt, rt):
+    """mirror of Spec.castDefined (lean/Garnish/Lemmas/Casts.lean): lt = type of the value, rt = TARGET type"""
+    return lt == rt or lt == 'Unit' or rt in CAST_ANY or lt in CAST_DEF.get(rt, ())
+
+
 def defined(instr, lt, rt):
     """mirror of Spec/Defined.lean (kept equal by the test below against the Lean model's dispatch)"""
+    if instr == 'ApplyType':
+        return cast_defined(lt, rt)
     if instr in ARITH or instr in RANGE:
         return lt == 'Number' and rt == 'Number'
     if instr in TOTAL:
@@ -39,7 +51,7 @@ def defined(instr, lt, rt):
         return lt in ('Expression', 'External', 'Partial') or (lt, rt) in APPLY_DEF
     if instr in UNARY_DEF:
         return lt in UNARY_DEF[instr]
-    return None   # no claim (ApplyType, testers)
+    return None   # no claim (testers)
 
 
 def run(ctx):
@@ -58,12 +70,19 @@ def run(ctx):
     rows = opsuite.run(cases, 'c08', drv_ok)
     dis = 0
     n_undef = 0
+    n_unbuildable = 0
     per_instr = {}
     for c, ri, rm, skip in rows:
         instr, store, mode = c[3], c[2], c[4]
         l, r = opsuite.operands(c)
         lt, rt = opgen.type_of_term(l), (opgen.type_of_term(r) if r != '-' else 'Unit')
+        if instr == 'ApplyType':
+            # the right operand of a cast stands for its TARGET type (a Type value names it); that is the type handed to the host
+            rt = opgen.target_type_of_term(r)
         pi = opsuite.parse_result(ri)
+        if pi['kind'] == 'SETUP-ERR' and skip and skip.startswith('SimpleGarnishData symbol lists cannot hold numbers'):
+            n_unbuildable += 1    # the operand cannot be built on this data implementation: no instruction was executed
+            continue
         if pi['kind'] in ('PANIC', 'HANG', 'ABORT', 'missing'):
             ctx.fail('oracle', c, impl=ri, model=rm, expect='no panic', note='execution of one instruction panicked / hung')
             continue
@@ -72,7 +91,8 @@ def run(ctx):
             n_undef += 1
             per_instr[instr] = per_instr.get(instr, 0) + 1
             ctx.distinct.add((instr, lt, rt, store, mode))
-            rr = 'U' if r == '-' else r
+            # the harness log prints a unit-typed operand as U without looking at the address (unary filler, cast target Unit)
+            rr = 'U' if (r == '-' or (instr == 'ApplyType' and rt == 'Unit')) else r
             want_log = [] if mode == 'absent' else [f'defer({instr},{lt}:{l},{rt}:{rr})']
             want_top = '(i 777)' if mode == 'accept' else 'U'
             ok = (pi['kind'] == 'ok' and pi['top'] == want_top and pi['regs'] == 1 and pi['log'] == want_log and pi['vals'] == 0 and pi['frames'] == 0)
@@ -90,12 +110,14 @@ def run(ctx):
     ctx.oblige('suite OP.* complete type-pair matrix (implementation = Lean model)', 'suite', dis == 0 and drv_ok, f'{dis} disagreement(s)')
     ctx.exhaustive = True
     ctx.rule = ('complete matrix: 30 binary + 14 unary instructions x every ordered pair of 19 value types x all representative values per type (empty, singleton, typical, nested) '
-                'x {SimpleGarnishData, BasicGarnishData} x callback {absent, declining, accepting}; for every combination Spec/Defined.lean leaves undefined the oracle demands exactly one defer_op call with the operation and both operands in source order, '
+                'plus the cast matrix (ApplyType: ~330 left representatives incl. slices of every sequence kind, float / descending / i32::MAX ranges, multi-byte text x 21 target types, each as a Type value and as a value of that type) '
+                'x {SimpleGarnishData, BasicGarnishData} x callback {absent, declining, accepting}; for every combination Spec/Defined.lean (casts: Spec.castDefined) leaves undefined the oracle demands exactly one defer_op call with the operation and both operands in source order, '
                 'unit when declined, the host value unchanged when accepted, exactly one result, no error; distinct_nontrivial = distinct undefined (instr, ltype, rtype, store, mode).')
-    ctx.suites = {'OP.matrix': len(cases), 'undefined_cases': n_undef}
+    ctx.suites = {'OP.matrix': len(cases), 'undefined_cases': n_undef, 'operand_not_buildable_on_simple': n_unbuildable}
     ctx.distribution = {'undefined_cases_per_instruction': per_instr}
     for c, ri, rm, skip in rows[:: max(1, len(rows) // 6)][:6]:
         ctx.sample({'case': c[2:], 'impl': ri, 'model': rm}, cap=80)
     ctx.trusted += ['value-level model of the handlers (Abs/Ops.lean) tied to the code by the exhaustive OP matrix on both data implementations',
                     'Spec/Defined.lean is the hand-written statement of which combinations the language defines; tools/props/c08.py mirrors it',
-                    'casts (ApplyType) and slice operands: executed (no panic/no hang) but outside the model']
+                    'casts (ApplyType): value-level model Abs/Casts.lean `castOp` (per data implementation where the two differ), table Spec.castDefined (Lemmas/Casts.lean) mirrored by cast_defined(); '
+                    'not compared: float -> text (f64 Display), operands SimpleGarnishData cannot build, BasicGarnishData nested byte list -> ByteList (heap-layout dependent); slice operands of the other instructions: executed (no panic/no hang) but outside the model']
